@@ -3,6 +3,7 @@ package main
 // Translation of contract expressions (Go expression syntax) to SMT terms.
 
 import (
+	"go/constant"
 	"sort"
 	"bytes"
 	"fmt"
@@ -155,6 +156,16 @@ func (ex *Exec) lookupIdent(st *State, name string, ctx *specCtx) SV {
 		return Scalar(T(SStr, "lit_u3000"))
 	case "nextRef":
 		return Scalar(st.next)
+	case "iter":
+		// number of completed iterations of the loop whose contract is being interpreted,
+		// whatever form the loop has (range loop: hidden index + 1; counting loop: the
+		// variable compared in the loop condition)
+		if ex.curLoop != nil {
+			if t, ok := ex.iterTerm(st, ex.curLoop); ok {
+				return Scalar(t)
+			}
+		}
+		ex.specFail("iter: cannot identify the iteration counter of this loop")
 	}
 	for _, g := range ctx.ghosts {
 		if g.name == name {
@@ -821,3 +832,55 @@ func (ex *Exec) constEval(e ast.Expr, splitSrc string, splitVal int64) (int64, b
 }
 
 var _ = types.Typ
+
+// iterTerm finds the iteration counter of a loop at its cut point (the start
+// of the header block).
+func (ex *Exec) iterTerm(st *State, li *loopInfo) (Term, bool) {
+	var cond *ssa.If
+	for _, in := range li.header.Instrs {
+		if c, ok := in.(*ssa.If); ok {
+			cond = c
+		}
+	}
+	if cond == nil {
+		return Term{}, false
+	}
+	bo, ok := cond.Cond.(*ssa.BinOp)
+	if !ok {
+		return Term{}, false
+	}
+	// the counter is read from a local cell in the header, possibly incremented first (range loops)
+	var find func(v ssa.Value, depth int) (*ssa.Alloc, int64, bool)
+	find = func(v ssa.Value, depth int) (*ssa.Alloc, int64, bool) {
+		if depth > 3 {
+			return nil, 0, false
+		}
+		switch x := v.(type) {
+		case *ssa.UnOp:
+			if a, ok := x.X.(*ssa.Alloc); ok && x.Op == token.MUL {
+				return a, 0, true
+			}
+		case *ssa.BinOp:
+			if c, ok := x.Y.(*ssa.Const); ok && x.Op == token.ADD && c.Value != nil {
+				if a, off, ok := find(x.X, depth+1); ok {
+					if k, ok2 := constant.Int64Val(c.Value); ok2 {
+						return a, off + k, true
+					}
+				}
+			}
+		}
+		return nil, 0, false
+	}
+	a, off, ok := find(bo.X, 0)
+	if !ok {
+		return Term{}, false
+	}
+	sv, ok := st.cells[a]
+	if !ok || sv.K != KScalar {
+		return Term{}, false
+	}
+	if off == 0 {
+		return sv.T, true
+	}
+	return Add(sv.T, IntLit(off)), true
+}
